@@ -8,8 +8,9 @@ META = dict(
          "trailers, read-until-close, bodiless, 100-continue, HEAD/204/304, header lines with no / one / several blanks after the colon, "
          "LF-only heads), each followed by the first bytes of a next message.  Every split of every message into <= 3 receives (<= 4 for "
          "messages up to 100 bytes in the thorough tier) is delivered to a fresh ioflo Requestant or Respondent with parse() called after "
-         "each receive, as the service loops do.  Parsed start line, headers, body, trailers and the unconsumed remainder must equal the "
-         "generator's ground truth and the one-piece parse.  States = (message, split) schedules, transitions = parse() steps.",
+         "each receive, as the service loops do, and with idle parse() calls (no new bytes) between two receives as a further environment choice "
+         "(quick: at most one gap with one idle pass; thorough: 0-2 per gap).  Parsed start line, headers, body, trailers and the unconsumed remainder must equal the "
+         "generator's ground truth and the one-piece parse.  States = (message, split, idle passes) schedules, transitions = parse() steps.",
     note="Bounded by message set and piece count (<=3 / <=4): a defect needing four or more specific cut points in one long message, or "
          "a message feature outside the generated set (obs-fold, duplicate header names, mixed LF/CRLF heads), is out of reach. "
          "LF-only heads are included because the parsers list LF as an accepted line end; they are never mixed with CRLF.",
@@ -206,14 +207,28 @@ def innermost(ex):
     return fn
 
 
-def execute(m, pieces):
+_IDLE = {}
+
+
+def idle_schedules(npieces):
+    """Idle parse() calls (no new bytes) between receives: quick = at most one gap with one idle
+    pass; thorough = 0, 1 or 2 in every gap for <= 3 pieces (<= one deviating gap for 4)."""
+    if npieces not in _IDLE:
+        if core.TIER == "thorough":
+            _IDLE[npieces] = split.idle_patterns(npieces, counts=(0, 1, 2), max_dev=None if npieces <= 3 else 1)
+        else:
+            _IDLE[npieces] = split.idle_patterns(npieces, counts=(0, 1), max_dev=1)
+    return _IDLE[npieces]
+
+
+def execute(m, pieces, gaps=None):
     """One execution of the real parser under one arrival schedule -> (observation, steps)."""
     from ioflo.aio.http import clienting, serving
     if m["kind"] == "req":
         p = serving.Requestant(msg=bytearray(), incomer=FakeIncomer())
     else:
         p = clienting.Respondent(msg=bytearray(), method=m["method"])
-    steps, finished, exc, delivered = split.drive(p, pieces, close=m["close"], idle=2)
+    steps, finished, exc, delivered = split.drive(p, pieces, close=m["close"], idle=2, gaps=gaps)
     # the receive that carried the message's last byte
     need = 0
     for piece in pieces:
@@ -283,28 +298,34 @@ def work(arg):
         for cuts, pieces in split.splits(wire, k):
             if not cuts:
                 continue
-            obs, steps = execute(m, pieces)
-            part.states += 1
-            part.transitions += steps
-            part.traces += 1
-            part.evaluations += 1
-            # a schedule is non-trivial when a cut falls inside the message proper
-            if cuts[0] < m["msglen"]:
-                part.nontrivial((m["label"], cuts))
-            d = diff_obs(obs, whole)
-            if d is not None:
-                part.outcome("%s:split-differs" % m["kind"])
-                part.violation("%s|split-vs-whole|%s" % (parser, d), "%s @ %s" % (m["label"], ",".join(map(str, cuts))),
-                               "%s gives a different result for %s when it arrives as %s: %s differs (whole %r, split %r)"
-                               % (parser, m["label"], split.show(pieces), d, whole.get(d, whole["outcome"]),
-                                  obs.get(d, obs["outcome"])),
-                               dict(parser=parser, message=m["label"], wire=wire, cuts=list(cuts), pieces=pieces,
-                                    close_after=m["close"], method=m["method"], whole=whole, split=obs,
-                                    expected=m["truth"]))
+            for gaps in idle_schedules(len(pieces)):
+                obs, steps = execute(m, pieces, gaps)
+                part.states += 1
+                part.transitions += steps
+                part.traces += 1
+                part.evaluations += 1
+                # a schedule is non-trivial when a cut falls inside the message proper
+                if cuts[0] < m["msglen"]:
+                    part.nontrivial((m["label"], cuts, gaps))
+                d = diff_obs(obs, whole)
+                if d is not None:
+                    part.outcome("%s:split-differs" % m["kind"])
+                    shown = split.show(pieces, gaps=gaps)
+                    part.violation("%s|split-vs-whole|%s" % (parser, d),
+                                   "%s @ %s%s" % (m["label"], ",".join(map(str, cuts)),
+                                                  " idle " + ",".join(map(str, gaps)) if any(gaps) else ""),
+                                   "%s gives a different result for %s when it arrives as %s%s: %s differs (whole %r, split %r)"
+                                   % (parser, m["label"], shown, " ('~' = parse() with no new bytes)" if any(gaps) else "", d,
+                                      whole.get(d, whole["outcome"]), obs.get(d, obs["outcome"])),
+                                   dict(parser=parser, message=m["label"], wire=wire, cuts=list(cuts), pieces=pieces,
+                                        idle_passes_between_pieces=list(gaps), close_after=m["close"], method=m["method"],
+                                        whole=whole, split=obs, expected=m["truth"]))
         if idx % 7 == 0:
             part.sample(dict(message=m["label"], wire=wire, bytes=len(wire), schedules=split.count_splits(len(wire), k),
                              whole=whole["outcome"]))
-    expect = split.count_splits(len(wire), k)
+    import math
+    n = len(wire)
+    expect = sum(math.comb(n - 1, j) * len(idle_schedules(j + 1)) for j in range(0, k) if j <= n - 1)
     if part.states != expect:
         raise core.BrokenCheck("%s: explored %d schedules, closed form says %d" % (m["label"], part.states, expect))
     return part
@@ -341,7 +362,7 @@ def run():
         "parsed (field 'prompt'), not only after bytes of the next message arrive",
     ]
     return ck.finish(
-        rule="state = (message, cut positions): all C(n-1,<=k-1) splits of each of the generated messages (+ next-message tail); transition = one "
+        rule="state = (message, cut positions, idle passes per gap: 0 or 1 parse() calls with no new bytes between two receives, <= 1 gap deviating; thorough 0-2): all C(n-1,<=k-1) splits of each of the generated messages (+ next-message tail); transition = one "
              "parse() call after a receive (plus 2 idle polls when unfinished); trace = one fresh-parser execution compared with truth and "
              "with the whole parse; non-trivial = first cut inside the message proper",
         exhaustive=True)
